@@ -80,4 +80,31 @@ structure ResEnv where
   sendError : PState → Nat → List Char → PState
   sendResponse : PState → Resp → PState                       -- `self._send_response(response)`
 
+/-- what `_send_middleware_rejection` calls and does not contain -/
+structure RejEnv where
+  sendResponse : PState → Resp → PState                       -- `self._send_response(response)`
+
+/-- `"Request refused"` -/
+def refusedText : List Char := "Request refused".toList
+/-- `line.removesuffix("\r\n")` -/
+def dropCRLF (l0 : List Char) : List Char :=
+  if l0.length ≥ 2 ∧ l0.drop (l0.length - 2) = ['\r', '\n'] then l0.take (l0.length - 2) else l0
+/-- `code, _, text = line.partition(" ")` -/
+def part (l : List Char) : List Char × List Char :=
+  match Url.splitOnce ' ' l with
+  | some (a, b) => (a, b)
+  | none => (l, [])
+/-- `len(t) == 2 and t.isascii() and t.isdigit()` -/
+def twoDigits (c : List Char) : Bool :=
+  match c with
+  | [a, b] => a.isDigit && b.isDigit
+  | _ => false
+/-- `int(t)` of two ASCII digits -/
+def intOf (c : List Char) : Nat :=
+  match c with
+  | [a, b] => (a.toNat - 48) * 10 + (b.toNat - 48)
+  | _ => 0
+/-- `GeminiResponse(status=status, meta=meta)` -/
+def mkResp (status : Nat) (m : List Char) : Resp := ⟨(status : Int), m.map Char.toNat, .none⟩
+
 end Srv
